@@ -221,7 +221,7 @@ def run_history(seed, knobs=None):
                 post_checked[mon.uid] = mon.epoch
                 with world.inspect():
                     if rng.random() < 0.8:
-                        w = mon.watch('late')
+                        w = mon.watch('late', rng.choice(['pair', 'pair', 'cb-eb', 'eb-cb']))
                         w.immediate = list(w.events)
                         count('late_registrations')
                     try:
@@ -268,7 +268,7 @@ def run_history(seed, knobs=None):
             elif r < 0.4:
                 live = [m for m in mons.values() if m.future is not None and sum(1 for w in m.watches if w.kind == 'mid') < 2]
                 if live:
-                    rng.choice(live).watch('mid')
+                    rng.choice(live).watch('mid', rng.choice(['pair', 'cb-eb', 'eb-cb']))
                     count('mid_registrations')
             elif r < 0.55:
                 c = held(('hold', 'hold-error'))
